@@ -277,6 +277,10 @@ class Exprs:
             ga = t.get("generic_args", [])
             if ga == ["board::Piece", "board::Square"]:
                 return ("agg", "board::Square", "Full", args)
+        import re as _re
+        m = _re.match(r"^<(i8|i16|i32|i64|isize|u8|u16|u32|u64|usize) as std::ops::(Add|Sub|Mul)<&?\1>>::(add|sub|mul)$", callee)
+        if m and len(args) == 2:
+            return mk_bin(m.group(2), strip_refs(args[0]) if args[0][0] == "ref" else args[0], mk_deref(args[1]) if args[1][0] in ("ref",) else (("deref", args[1]) if False else _deref_if_ref_ty(args[1])))
         if callee in PURE:
             return ("call", callee, args, None)
         return ("call", callee, args, loc)
@@ -335,6 +339,13 @@ class Exprs:
     def switch_discr(self, bb):
         t = self.b.term(bb)
         return self.operand(t["discr"], self.b.term_loc(bb))
+
+
+def _deref_if_ref_ty(e):
+    """Operand of a by-reference arithmetic impl (`i8 + &i8`): the referenced value."""
+    if e[0] == "ref":
+        return e[1]
+    return ("deref", e)
 
 
 def mk_ref_value(v, ty):
